@@ -263,7 +263,11 @@ class Gen:
         if k == "sender":
             return E("sender", ADDR)
         if k == "cmp":
-            ct = self.int_type() if r.random() < 0.9 else BOOL
+            avail = sorted({vt for (_n, _i, vt, _m) in scope if is_int(vt)} | {vt for _n, vt in self.prog.sto if is_int(vt)})
+            if avail and r.random() < 0.75:
+                ct = r.choice(avail)
+            else:
+                ct = self.int_type() if r.random() < 0.9 else BOOL
             op = r.choice(CMPS) if ct != BOOL else r.choice(["Eq", "Ne"])
             a = self.nonlit(cx, scope, ct, d - 1)
             if a is None:
@@ -380,17 +384,18 @@ class Gen:
     def stmt(self, cx, scope, d, last):
         """returns a list of statements (possibly declaring into scope)"""
         r = self.r
-        kinds = ["decl"] * 3 + ["assign"] * 4 + ["aug"] * 3 + ["assert"] + ["log"] * 2
+        kinds = ["decl"] * 3 + ["assign"] * 4 + ["aug"] * 3 + ["assert"] * 2 + ["log"] * 2
         if d > 0:
-            kinds += ["if"] * 3
+            kinds += ["if"] * 5
             if "loops" in self.feat and cx.loop_depth < 2:
                 kinds += ["for"] * 2
         if "internal" in self.feat and self.callable_funs(cx, None, True):
             kinds += ["callstmt"] * 2
-        if "dynarrays" in self.feat:
-            kinds += ["append"] * 2 + ["pop"]
+        if "dynarrays" in self.feat and any(t[0] == "darr" or (t[0] == "struct" and any(ft[0] == "darr" for _, ft in t[2]))
+                                            for t in self.comp_types):
+            kinds += ["append"] * 3 + ["pop"] * 2
         if last and cx.loop_depth > 0:
-            kinds += ["brk"] * 3
+            kinds += ["brk"] * 6
         if last and d > 0:
             kinds += ["ret_if"]
         k = r.choice(kinds)
